@@ -4,6 +4,7 @@ C08 — Broker persistent sessions resume without losing subscriptions or messag
 import Proofs.Lemmas.Router.Frame
 import Proofs.Lemmas.Router.Rp3_Unique
 import Proofs.Lemmas.Router.Rp1_Helpers2
+import Proofs.Lemmas.Router.Rp12_Resume
 namespace C08
 open Router Router.Rp3
 
@@ -698,6 +699,142 @@ example :
         | none => false)
      | .error _ => false) = true := by rw [run_eq_runX]; decide
 
+
+/-! ### the resume point, and delivery from it
+
+`oldestCursor fi window` — the cursor of the first (oldest) entry `(pkid, fi, some cur)` of the outgoing
+window; `resumeCursor groups window q` — that cursor if there is one, else the cursor `q` is saved
+with (`atGroupCursor`: its own for a plain subscription, its group's for a shared one);
+`savedOf groups window q` — the request saved for `q` (definitions in
+Proofs/Lemmas/Router/Rp12_Resume.lean). -/
+
+/-- what "the oldest window entry of the filter index" means: the window is `pre ++ (pkid, fi, some cur) :: post`
+    and no entry of `pre` with filter index `fi` carries a cursor (retained replays carry none);
+    and there is none exactly if no window entry of the index carries a cursor -/
+theorem oldest_window_entry (fi : Nat) (w : List (Nat × Nat × Option Cursor)) :
+    (∀ cur, oldestCursor fi w = some cur ↔
+      ∃ pre pk post, w = pre ++ (pk, fi, some cur) :: post ∧ ∀ e ∈ pre, e.2.1 = fi → e.2.2 = none) ∧
+    (oldestCursor fi w = none ↔ ∀ e ∈ w, e.2.1 = fi → e.2.2 = none) ∧
+    nlookup fi (retransmissionMap w []) = oldestCursor fi w :=
+  ⟨fun cur => oldestCursor_some_iff fi cur w, oldestCursor_none_iff fi w, retx_lookup_oldest fi w⟩
+
+/-- the resume cursor, case by case -/
+theorem resume_cursor_cases (sh : List (String × SharedGroup)) (w : List (Nat × Nat × Option Cursor)) (q : DataRequest) :
+    (∀ cur, oldestCursor q.filterIdx w = some cur → resumeCursor sh w q = cur) ∧
+    (oldestCursor q.filterIdx w = none → q.group = none → resumeCursor sh w q = q.cursor) ∧
+    (oldestCursor q.filterIdx w = none → ∀ g grp, q.group = some g → alookup g sh = some grp →
+      resumeCursor sh w q = grp.cursor) := by
+  refine ⟨fun cur h => by unfold resumeCursor; rw [h], fun h hp => ?_, fun h g grp hg hl => ?_⟩
+  · unfold resumeCursor; rw [h]; simp only []; rw [atGroupCursor_plain sh q hp]
+  · unfold resumeCursor; rw [h]; simp only []
+    exact (saved_shared_request_continues_at_group_cursor sh q).2.2.2.2.2.1 g grp hg hl
+
+/-- C08.3 `resume_point` (what is in the graveyard). When a persistent connection ends, for every
+    data request `q` it owns — tracked, or parked in a waiter list (`DataLog::clean` collects those) —
+    the saved session holds a request with the same filter, filter index, QoS and group whose cursor
+    is the RESUME POINT: the cursor of the oldest window entry `(pkid, filter_idx, Some(cursor))` of the
+    request's filter index if the window has one (the oldest forwarded and not yet acknowledged QoS>0
+    publish read from that log), else the request's own cursor (plain subscription) or the group's
+    cursor at that time (shared subscription). For a connection whose subscriptions read distinct logs
+    (no two of its requests have the same `filter_idx`) the window entries of index `filter_idx` are
+    those forwarded through this subscription; when two subscriptions of the connection read the same
+    log (`t` and `$share/g/t`) the window does not tell their entries apart — the recorded
+    "rewind conflation" finding (`C17.rewind_can_skip_entries`). -/
+theorem saved_request_is_at_resume_point (s s1 : RState) (id : Nat) (r : Option String) (c : Conn)
+    (hc : getConn s id = some c) (hcl : c.clean = false) (hd : handleDisconnection s id r = .ok s1)
+    (q : DataRequest) (hq : q ∈ c.tracker.requests ++ (datalogClean s.datalog id).2) :
+    ∃ ss q', alookup c.clientId s1.graveyard = some (some ss) ∧ q' ∈ ss.tracker.requests ∧
+      q'.filter = q.filter ∧ q'.filterIdx = q.filterIdx ∧ q'.qos = q.qos ∧ q'.group = q.group ∧
+      q'.cursor = resumeCursor s.shared c.out.inflight q := by
+  obtain ⟨hg1, _, _, _⟩ := handleDisconnection_spec hc hd
+  obtain ⟨f1, f2, f3, f4, _, f6⟩ := savedOf_fields s.shared c.out.inflight q
+  refine ⟨savedState s id c, savedOf s.shared c.out.inflight q, ?_, savedOf_mem hq, f1, f2, f3, f4, f6⟩
+  rw [hg1, alookup_ainsert_same]
+  unfold savedSession; simp [hcl]
+
+/-- C08.3 (the resumed request is tracked and the connection is scheduled). Under the hypotheses of
+    `subscriptions_survive` (a persistent connection ended; in between nothing touched the client's
+    graveyard entry; the client reconnects with `clean_session = false`): the new connection tracks,
+    for every request `q` the old connection owned, the saved request standing at the resume point
+    (`saved_request_is_at_resume_point`), and — `reschedule(Init)` on the restored `Paused(Busy)`
+    tracker — it is `Ready` and in the ready queue: a `consume` call will serve it. -/
+theorem resumed_request_is_tracked_and_scheduled (s s1 s2 s3 : RState) (id : Nat) (c : Conn) (r : Option String)
+    (spec : ConnectSpec)
+    (hc : getConn s id = some c) (hcl : c.clean = false) (hd : handleDisconnection s id r = .ok s1)
+    (hgy : alookup c.clientId s2.graveyard = alookup c.clientId s1.graveyard)
+    (hnew : alookup c.clientId s2.connectionMap = none)
+    (hroom : ¬ s2.conns.len ≥ s2.config.maxConnections)
+    (hid : spec.clientId = c.clientId) (hsc : spec.clean = false) (hv : validClientId spec.clientId = true)
+    (hn : handleNewConnection s2 spec = .ok s3) :
+    ∃ id' c', alookup c.clientId s3.connectionMap = some id' ∧ getConn s3 id' = some c' ∧
+      c'.clientId = c.clientId ∧ c'.tracker.status = .ready ∧ id' ∈ s3.readyqueue ∧
+      ∀ q ∈ c.tracker.requests ++ (datalogClean s.datalog id).2, ∃ q' ∈ c'.tracker.requests,
+        q'.filter = q.filter ∧ q'.filterIdx = q.filterIdx ∧ q'.qos = q.qos ∧ q'.group = q.group ∧
+        q'.cursor = resumeCursor s.shared c.out.inflight q := by
+  obtain ⟨hg1, _, _, _⟩ := handleDisconnection_spec hc hd
+  have hsaved : alookup spec.clientId (setLink s2 spec.link {}).graveyard = some (savedSession s id c) := by
+    show alookup spec.clientId s2.graveyard = _
+    rw [hid, hgy, hg1]; exact alookup_ainsert_same _ _ _
+  have hss : savedSession s id c = some (savedState s id c) := by
+    unfold savedSession; simp [hcl]
+  have ha := handleNewConnection_fresh hv (by rw [hid]; exact hnew) hn
+  obtain ⟨t, woke, htr, _, hget, _, hcm, _⟩ := admit_spec ha hroom
+  have hrs : restoredSession (setLink s2 spec.link {}) spec = some (savedState s id c) := by
+    unfold restoredSession; simp [hsc, hsaved, hss]
+  have hbusy : (newConn (setLink s2 spec.link {}) spec).tracker.status = .paused .busy := by
+    simp [newConn, hrs, savedState]
+  obtain ⟨c', hget', hst, hrq⟩ := admit_ready ha hroom hbusy
+  obtain ⟨hreqs, _⟩ := tryReady_fields htr
+  rw [hget] at hget'
+  simp only [Option.some.injEq] at hget'
+  refine ⟨_, c', ?_, by rw [← hget']; exact hget, by rw [← hget']; exact hid, hst, hrq, fun q hq => ?_⟩
+  · rw [hcm, ← hid]; exact alookup_ainsert_same _ _ _
+  · obtain ⟨f1, f2, f3, f4, _, f6⟩ := savedOf_fields s.shared c.out.inflight q
+    refine ⟨savedOf s.shared c.out.inflight q, ?_, f1, f2, f3, f4, f6⟩
+    rw [← hget']
+    show savedOf s.shared c.out.inflight q ∈ t.requests
+    rw [hreqs]
+    have : (newConn (setLink s2 spec.link {}) spec).tracker.requests = savedRequests s id c := by
+      simp [newConn, hrs, savedState]
+    rw [this]; exact savedOf_mem hq
+
+/-- C08 `resume_delivers_from_oldest_unacked` (with `C01.delivery_is_prefix`). A persistent connection
+    `id` of a reachable broker ends; later (nothing touched the client's graveyard entry) the client
+    resumes, giving the reachable state `s3` in which `id'` is its connection. Let `q` be the request
+    of a NON-SHARED subscription `f` the old connection owned. Then over ANY run from `s3` during which
+    the new connection stays and keeps the subscription, within the log retention (`QuietRun`), ending
+    below the no-overflow bound, the log offsets forwarded to the new connection through `f`
+    (`runFwd`) are EXACTLY the consecutive offsets from the resume point — the offset of the oldest
+    forwarded and unacknowledged entry of the subscription's log if the old window held one
+    (`oldest_window_entry`), else the offset the old request stood at: every unacknowledged entry is
+    sent again, in order, followed without gap or repeat by everything that came after it. -/
+theorem resume_delivers_from_oldest_unacked {cfg : Config} (h1 : 1 ≤ cfg.maxSegmentSize) (h2 : 1 ≤ cfg.maxSegmentCount)
+    (hpos : 0 < cfg.maxOutgoingPacketCount)
+    (s s1 s2 s3 s4 : RState) (id id' : Nat) (c : Conn) (r : Option String) (spec : ConnectSpec)
+    (hc : getConn s id = some c) (hcl : c.clean = false) (hd : handleDisconnection s id r = .ok s1)
+    (hgy : alookup c.clientId s2.graveyard = alookup c.clientId s1.graveyard)
+    (hnew : alookup c.clientId s2.connectionMap = none)
+    (hroom : ¬ s2.conns.len ≥ s2.config.maxConnections)
+    (hid : spec.clientId = c.clientId) (hsc : spec.clean = false) (hv : validClientId spec.clientId = true)
+    (hn : handleNewConnection s2 spec = .ok s3) (hr3 : Router.Reachable cfg s3)
+    (hid' : alookup c.clientId s3.connectionMap = some id')
+    (q : DataRequest) (hq : q ∈ c.tracker.requests ++ (datalogClean s.datalog id).2) (hplain : q.group = none)
+    (ops : List (Op × List Choice)) (hrun : run s3 ops = .ok s4) (hno : NoOverflow s4)
+    (hquiet : QuietRun id' c.clientId q.filter s3 ops) :
+    runFwd id' q.filter s3 ops =
+      List.range' (resumeCursor s.shared c.out.inflight q).2 (runFwd id' q.filter s3 ops).length ∧
+    ∃ q2, Own s4 id' q2 ∧ q2.filter = q.filter ∧ q2.filterIdx = q.filterIdx ∧
+      q2.cursor.2 = (resumeCursor s.shared c.out.inflight q).2 + (runFwd id' q.filter s3 ops).length := by
+  obtain ⟨id2, c', hcm, hget, _, _, _, hall⟩ :=
+    resumed_request_is_tracked_and_scheduled s s1 s2 s3 id c r spec hc hcl hd hgy hnew hroom hid hsc hv hn
+  rw [hid'] at hcm; cases hcm
+  obtain ⟨q', hm, f1, f2, _, f4, f6⟩ := hall q hq
+  have hown : Own s3 id' q' := .inl ⟨c', hget, hm⟩
+  obtain ⟨q2, o2, g1, _, g3, g4, g5⟩ :=
+    run_thread h1 h2 hpos ops hr3 hrun hno hquiet hown f1 (f4.trans hplain)
+  rw [f6] at g4 g5
+  exact ⟨g4, q2, o2, g1, g3.trans f2, g5⟩
+
 /-! non-vacuity of the resume theorems (hand-built states) -/
 
 def resumeReq : DataRequest := ⟨"$share/g/t", 0, 1, (0, 3), false, some "g/t"⟩
@@ -746,5 +883,25 @@ example : ∃ s', handleDisconnection leaveState 0 none = .ok s' ∧
     ((alookup "a" s'.graveyard).bind id).map (fun ss => ss.tracker.requests.map (fun r => (r.filter, r.cursor))) =
       some [("$share/g/t", (0, 5)), ("x", (0, 0))] :=
   ⟨_, (handleDisconnection_eqX _ _ _).trans rfl, by decide⟩
+
+/-- persistent `a` (id 0) subscribed to `x` (log 1): its request stands at `(0, 4)`, its window holds a
+    retained replay (no cursor) and two unacknowledged publishes of log 1 read at `(0, 2)` and `(0, 3)` -/
+def windowState : RState :=
+  { config := ⟨10, 1024, 2, 10, .roundRobin⟩, links := [{}],
+    conns := ⟨[some { clientId := "a", link := 0, clean := false, dynamicFilters := false,
+                      subscriptions := ["x"], out := { inflight := [(1, 1, none), (2, 1, some (0, 2)), (3, 1, some (0, 3))], lastPkid := 3 },
+                      tracker := { id := "a", requests := [⟨"x", 1, 1, (0, 4), false, none⟩] } }], []⟩,
+    connectionMap := [("a", 0)],
+    subscriptionMap := [("x", [0])],
+    datalog := { native := [{ filter := "t", log := CLog.Log.new 1024 2 }, { filter := "x", log := CLog.Log.new 1024 2 }],
+                 filterIndexes := [("t", 0), ("x", 1)] } }
+
+/-- non-vacuity (kernel-evaluated): the oldest cursor of log 1 in that window is `(0, 2)`, and the
+    request saved at the disconnection stands there -/
+example : oldestCursor 1 [(1, 1, none), (2, 1, some (0, 2)), (3, 1, some (0, 3))] = some (0, 2) ∧
+    ∃ s', handleDisconnection windowState 0 none = .ok s' ∧
+    ((alookup "a" s'.graveyard).bind id).map (fun ss => ss.tracker.requests.map (fun r => (r.filter, r.cursor))) =
+      some [("x", (0, 2))] :=
+  ⟨by decide, _, (handleDisconnection_eqX _ _ _).trans rfl, by decide⟩
 
 end C08
